@@ -72,6 +72,10 @@ def tasks(tier, seed):
                         cus = [False, True] if qt in ('RADAU-RIGHT', 'LOBATTO') and (not quick or (nt == 'LEGENDRE' and qd[0] in ('LU', 'EE') and qd[-1] != 'LF' and M >= 2)) else [False]
                         for cu in cus:
                             T.append(('sdc', kind, M, nt, qt, qd, tuple(Ks), cu))
+    # tiny and huge step sizes with lambda * dt = z unchanged: the step function depends on z only (dt * QI[m, m] is 3e-10 resp. 1e9 here, never exactly zero)
+    for dt_ in (2.0**-30, 2.0**30):
+        for kind, qd, M_ in (('generic_implicit', ('LU',), 2), ('generic_implicit', ('IE',), 3), ('imex_1st_order', ('LU', 'EE'), 2), ('explicit', ('EE',), 2)):
+            T.append(('sdc', kind, M_, 'LEGENDRE', 'RADAU-RIGHT', qd, (1, 2, 3), False, dt_))
     # preconditioners that depend on the sweep index (several sweeps with changing tables)
     for M in ([2, 3] if quick else [2, 3, 4]):
         for kind, qd in (('generic_implicit', ('MIN-SR-FLEX',)), ('imex_1st_order', ('MIN-SR-FLEX', 'EE'))):
@@ -199,11 +203,16 @@ ZS = Series([0, 1])
 # ------------------------------------------------------------------------------------------------ SDC
 
 
+DT = [1.0]  # step size of the sdc cases (the problem coefficient is z / dt, so that lambda * dt = z exactly; powers of two only)
+
+
 def sdc_step_function(kind, M, nt, qt, qd, K, cu, zs):
     """run the real predictor, K sweeps and the end point; returns (term after each k in Ks, level)"""
+    sc = 1.0 / DT[0]
+    zs = {k: (v * sc if sc != 1.0 else v) for k, v in zs.items()}
     coef = {'generic_implicit': {'A': [[zs['zI']]]}, 'explicit': {'A': [[zs['zI']]]}, 'imex_1st_order': {'AI': [[zs['zI']]], 'AE': [[zs['zE']]]}}[kind]
     pc, pp = c02.problem_for(kind, coef)
-    L = cm.make_level(pc, pp, c02.SWEEPERS[kind], c02.sweeper_params(kind, M, nt, qt, qd, cu), 1.0)
+    L = cm.make_level(pc, pp, c02.SWEEPERS[kind], c02.sweeper_params(kind, M, nt, qt, qd, cu), DT[0])
     P = L.prob
     u0 = P.dtype_u(P.init)
     u0[0] = SymReal(1)
@@ -246,8 +255,17 @@ def spec_recursion(kind, mats, weights, K, zI, zE, copy_mode):
     return 1 + zt * sum(rv(weights[m - 1]) * U[m] for m in range(1, M + 1))
 
 
-def sdc_case(rep, kind, M, nt, qt, qd, Ks, cu):
-    name = f'sdc/{kind}/M{M}/{nt}/{qt}/{"+".join(qd)}/cu{int(cu)}'
+def sdc_case(rep, kind, M, nt, qt, qd, Ks, cu, dt=1.0):
+    """dt: the step size the real level carries (default 1; tiny / huge powers of two: lambda * dt = z is what the step function may depend on)"""
+    DT[0] = float(dt)
+    try:
+        _sdc_case(rep, kind, M, nt, qt, qd, Ks, cu)
+    finally:
+        DT[0] = 1.0
+
+
+def _sdc_case(rep, kind, M, nt, qt, qd, Ks, cu):
+    name = f'sdc/{kind}/M{M}/{nt}/{qt}/{"+".join(qd)}/cu{int(cu)}' + (f'/dt{DT[0]:g}' if DT[0] != 1.0 else '')
     zI, zE = z3.Real('zI'), z3.Real('zE')
     c = Ctx()
     Ctx.cur = c
@@ -338,9 +356,10 @@ def pw(x, n):
 def float_step(kind, M, nt, qt, qd, K, cu, env):
     from harness import sweepspec as ss
 
+    env = dict(env, zI=env['zI'] / DT[0], zE=env.get('zE', 0.0) / DT[0])
     coefF = {'generic_implicit': {'A': [[env['zI']]]}, 'explicit': {'A': [[env['zI']]]}, 'imex_1st_order': {'AI': [[env['zI']]], 'AE': [[env['zE']]]}}[kind]
     pc, pp = c02.float_problem_for(kind, {k: np.array(v) for k, v in coefF.items()})
-    L = cm.make_level(pc, pp, c02.SWEEPERS[kind], c02.sweeper_params(kind, M, nt, qt, qd, cu), 1.0)
+    L = cm.make_level(pc, pp, c02.SWEEPERS[kind], c02.sweeper_params(kind, M, nt, qt, qd, cu), DT[0])
     P = L.prob
     u0 = P.dtype_u(P.init)
     u0[0] = 1.0
@@ -384,7 +403,7 @@ def triage_sdc(rep, kind, M, nt, qt, qd, K, cu, model, zI, zE, name, mats, weigh
         return
     if abs(got - exp) > 1e-8 * (1 + abs(exp)):
         rep.violation(f'{PID}/{kind}/step-function', f'{name}/K{K}: real step function {got!r} vs algebraic recursion {exp!r} at z={env}',
-                      {'task': ['sdc', kind, M, nt, qt, list(qd), K, cu], 'env': env, 'observed': got, 'expected': exp})
+                      {'task': ['sdc', kind, M, nt, qt, list(qd), K, cu, DT[0]], 'env': env, 'observed': got, 'expected': exp})
     else:
         # the exact identity is refuted but the real float code agrees with the recursion: the encoded code may combine table entries in floating point
         # (e.g. a stored Q - QD) where the specification combines them exactly.  Decide the identity up to such rounding: two rational functions of
@@ -569,7 +588,9 @@ def replay(path):
     d = json.load(open(path))['replay']
     t = d['task']
     if t[0] == 'sdc':
+        DT[0] = float(t[8]) if len(t) > 8 else 1.0
         got = float_step(t[1], t[2], t[3], t[4], tuple(t[5]), t[6], t[7], d['env'])
+        DT[0] = 1.0
         print('observed', got, 'expected', d['expected'])
         bad = abs(got - d['expected']) > 1e-8 * (1 + abs(d['expected']))
     elif t[0] == 'rk' and d.get('second_step'):
